@@ -12,6 +12,7 @@
   descendant" idiom (`Adm` excludes it) — these are covered by the invariant checker on the real code only.
 -/
 import SqlglotModel.Proofs.Tree
+import SqlglotModel.Proofs.TreeNorm
 import SqlglotModel.Generated.C08
 
 namespace SqlglotModel.Properties.C08
@@ -114,6 +115,33 @@ theorem eq_iff_recomputed [DecidableEq H] (F : HashFns H) (fuel fuel' : Nat) (h 
           rw [← hr, hya, hyb]
           simp
 
+/-- A-hash: the hash algebra is collision-free on normal forms -/
+def CollisionFree (F : HashFns H) : Prop := ∀ s t : Norm, HT.eval F s = HT.eval F t → s = t
+
+/-- "Two trees compare equal exactly when they have the same structure and leaf values": for distinct nodes of the same
+    class, `a == b` holds iff their explicit normal forms `absNorm` (sorted keys; None/False args dropped, strings
+    lower-cased, list elements in order with None/False holding their position; raw-arg classes keep truthy values
+    verbatim) are identical — under A-hash (`CollisionFree F`). Caches in any state, as long as `Inv` holds. -/
+theorem eq_iff_structure [DecidableEq H] (F : HashFns H) (hF : CollisionFree F) (fuel fuel' : Nat) (h h' : Heap H)
+    (a b : Id) (r : Bool) (na nb : Norm) (hI : Inv F h) (hab : a ≠ b) (hcls : (h a).cls = (h b).cls)
+    (he : opEq F fuel h a b = some (h', r))
+    (ha : absNorm F.lower fuel' h a = some na) (hb : absNorm F.lower fuel' h b = some nb) :
+    (r = true ↔ na = nb) := by
+  have ra : recompute F fuel' h a = some (HT.eval F na) := by rw [recompute_eval, ha]; rfl
+  have rb : recompute F fuel' h b = some (HT.eval F nb) := by rw [recompute_eval, hb]; rfl
+  rw [eq_iff_recomputed F fuel fuel' h h' a b r _ _ hI hab hcls he ra rb]
+  exact ⟨hF na nb, fun e => by rw [e]⟩
+
+/-- the free term algebra interprets every normal form as itself, so it is collision-free (A-hash is satisfiable) -/
+theorem freeHash_eval (t : Norm) : HT.eval freeHash t = t := by
+  induction t with
+  | init c => rfl
+  | mixS t k s ih => show HT.mixS (HT.eval freeHash t) k s = HT.mixS t k s; rw [ih]
+  | mixH t k x ih1 ih2 => show HT.mixH (HT.eval freeHash t) k (HT.eval freeHash x) = HT.mixH t k x; rw [ih1, ih2]
+  | mixK t k ih => show HT.mixK (HT.eval freeHash t) k = HT.mixK t k; rw [ih]
+
+example : CollisionFree freeHash := fun s t e => by rwa [freeHash_eval, freeHash_eval] at e
+
 /-- nodes of different classes are never equal, and no cache is touched -/
 theorem eq_different_class [DecidableEq H] (F : HashFns H) (fuel : Nat) (h : Heap H) (a b : Id) (hab : a ≠ b)
     (hcls : (h a).cls ≠ (h b).cls) : opEq F fuel h a b = some (h, false) := by
@@ -161,5 +189,64 @@ def staleHeap : Heap HT :=
 theorem closure_needed :
     ((opSet 4 staleHeap 1 "this" (.leaf (.str "z")) none true).map (fun h => (h 0).hash)) =
       some (some (HT.init "stale")) := by decide +kernel
+
+/-! ### negative list indexes: `set(k, None, index=-j)`
+
+  `Expression.set` accepts a negative `index` (`seq_get` and `list.pop` do), but its renumbering loop
+  `for v in expressions[index:]` then visits the last `j` elements of the shortened list. Witness on
+  `Select(expressions=[c1, c2, c3])` with `index=-1`: `c3` is removed and `c2`, still stored at position 1, is renumbered
+  to 0 — `Inv.links` is broken by one public call (known finding `C08-set-none-negative-index`). With the index
+  normalised first (`index += len(expressions)`, the proposed repair) the call is an ordinary `set(k, None, i)`. -/
+
+def negDemo : List Op :=
+  [.new 0 "select" false, .new 1 "column" false, .new 2 "column" false, .new 3 "column" false,
+   .set 0 "expressions" (.list [.node 1, .node 2, .node 3]) none true]
+
+theorem negative_index_breaks_links :
+    ((run freeHash 8 empty negDemo).bind (fun h => opSetNoneNeg 8 h 0 "expressions" 1 false)).map
+      (fun h => (getKey "expressions" (h 0).args, (h 2).index)) =
+      some (some (.many [.node 1, .node 2]), some 0) := by decide +kernel
+
+/-- the same call on the repaired code keeps position and index together -/
+theorem negative_index_normalised_witness :
+    ((run freeHash 8 empty negDemo).bind (fun h => opSetNoneNeg 8 h 0 "expressions" 1 true)).map
+      (fun h => (getKey "expressions" (h 0).args, (h 2).index)) =
+      some (some (.many [.node 1, .node 2]), some 1) := by decide +kernel
+
+/-- with the index normalised first, a negative index preserves the invariant (it is `inv_set`) -/
+theorem negative_index_normalised_ok (F : HashFns H) (fuel : Nat) (h h' : Heap H) (self : Id) (k : String)
+    (back : Nat) (hI : Inv F h) (he : opSetNoneNeg fuel h self k back true = some h') : Inv F h' := by
+  unfold opSetNoneNeg at he
+  split at he
+  · next h1 hinv =>
+    obtain ⟨hI1, _, hn⟩ := inval_inv F hI hinv
+    unfold setNoneNegCore at he
+    split at he
+    · split at he
+      · simp only [Option.some.injEq] at he; subst he; exact hI1
+      · simp only [if_true] at he
+        exact inv_setCore F hI1 hn (by trivial) he
+    · simp only [Option.some.injEq] at he; subst he; exact hI1
+    · split at he
+      · cases he
+      · simp only [Option.some.injEq] at he; subst he; exact hI1
+    · cases he
+  · cases he
+
+/-! ### the "replace a node by its own child" idiom (`paren.replace(paren.this)`)
+
+  It is outside `Adm` (the value is still stored — under the node being replaced). Witness: on `Not(this=Paren(this=Lit))`
+  the call leaves the LIVE tree consistent (`Not.this = Lit`, `Lit.parent = Not`) while the replaced-out `Paren` husk still
+  holds `Lit` in its args: the whole-heap `Links` fails at the husk only. So `Inv` as stated (whole heap) cannot cover the
+  idiom; on the real code it is covered by the root-relative invariant checker of the search stage. -/
+
+def huskDemo : List Op :=
+  [.new 0 "paren" false, .new 1 "literal" true, .new 2 "not" false, .set 1 "this" (.leaf (.str "1")) none true,
+   .set 0 "this" (.node 1) none true, .set 2 "this" (.node 0) none true]
+
+theorem replace_by_own_child_leaves_husk :
+    ((run freeHash 8 empty huskDemo).bind (fun h => opReplace 8 h 0 (.node 1))).map
+      (fun h => (getKey "this" (h 2).args, (h 1).parent, (h 1).argKey, getKey "this" (h 0).args, (h 0).parent)) =
+      some (some (.one 1), some 2, some "this", some (.one 1), none) := by decide +kernel
 
 end SqlglotModel.Properties.C08
